@@ -21,6 +21,7 @@ list() {
       r3_*) echo "$d/patch.diff /tmp/fix3facts/${n#r3_}";;
       r4_*) echo "$d/patch.diff /tmp/refac4facts/${n#r4_}";;
       r5_*) echo "$d/patch.diff /tmp/fix4facts/${n#r5_}";;
+      r6_*) echo "$d/patch.diff /tmp/refac6facts/${n#r6_}";;
       *) echo "$d/patch.diff /tmp/refacfacts/$n";;
     esac
   done
@@ -32,5 +33,5 @@ one() { # one <patch|-> <facts dir>
   [ -f "$OUT/.done" ] || echo "FAILED $OUT"
 }
 export -f one
-mkdir -p /tmp/seed5facts /tmp/mutfacts /tmp/fix4facts /tmp/seedfacts /tmp/seed2facts /tmp/seed3facts /tmp/seed4facts /tmp/combofacts /tmp/refacfacts /tmp/refac2facts /tmp/fix3facts /tmp/refac4facts
+mkdir -p /tmp/refac6facts /tmp/seed5facts /tmp/mutfacts /tmp/fix4facts /tmp/seedfacts /tmp/seed2facts /tmp/seed3facts /tmp/seed4facts /tmp/combofacts /tmp/refacfacts /tmp/refac2facts /tmp/fix3facts /tmp/refac4facts
 list | xargs -P $J -L 1 bash -c 'one "$0" "$1"'
